@@ -12,7 +12,7 @@ ID = 'C04'
 LEVEL = 'exploration'
 EXHAUSTIVE = {'quick': True, 'thorough': True}
 RULE = ('complete enumeration per logic of every node shape (operator | quantifier | modal operator) x negated x '
-        'designation with atomic components, in contexts of k in {0,1,2} constants / accessible worlds; the expansion '
+        'designation with atomic components (operator shapes also with negated-atom operands), in contexts of k in {0,1,2} constants / accessible worlds; the expansion '
         'produced by the real rule (found with the full rule set, then re-applied alone until it has no target) is '
         'compared with the reference semantics in both directions for every valuation of the components (all value '
         'pairs; all monadic valuations over the branch constants plus one unnamed element; all valuations over the '
@@ -45,10 +45,19 @@ def operator_shapes(name):
         for negated in (False, True):
             if o == 'Negation' and not negated:
                 continue
-            core = A.op(o, PA) if A.OPS[o] == 1 else A.op(o, PA, PB)
-            s = A.neg(core) if negated else core
-            for d in ds:
-                yield dict(kind='operator', oper=o, negated=negated, designated=d, sentence=s)
+            # components: atomic, and negated atoms (rules that add or strip a negation must treat ~X as a sentence,
+            # not as "the opposite of X": negation is not involutive in G3 and P3)
+            if A.OPS[o] == 1:
+                variants = [('', (PA,)), ('~', (A.neg(PA),))]
+            else:
+                variants = [('', (PA, PB)), ('~,', (A.neg(PA), PB)), (',~', (PA, A.neg(PB))), ('~,~', (A.neg(PA), A.neg(PB)))]
+            for vname, comps in variants:
+                if o == 'Negation' and vname:
+                    continue
+                core = A.op(o, *comps)
+                s = A.neg(core) if negated else core
+                for d in ds:
+                    yield dict(kind='operator', oper=o, negated=negated, designated=d, sentence=s, variant=vname)
 
 
 def quantifier_shapes(name):
@@ -77,12 +86,14 @@ def modal_shapes(name):
                     yield dict(kind='modal', oper=o, negated=negated, designated=d, sentence=s, k=k)
 
 
-def shape_name(sh):
+def shape_name(sh, fingerprint=False):
     n = 'DoubleNegation' if (sh['oper'] == 'Negation' and sh['negated']) else sh['oper'] + ('Negated' if sh['negated'] else '')
     if sh['designated'] is not None:
         n += 'Designated' if sh['designated'] else 'Undesignated'
     if 'k' in sh:
         n += f'/k={sh["k"]}'
+    if sh.get('variant') and not fingerprint:
+        n += f'/operands={sh["variant"]}'
     return n
 
 
@@ -164,7 +175,7 @@ def check_operator(name, sh):
     w = 0 if R.is_modal(name) else None
     s, d = sh['sentence'], sh['designated']
     rulecls = _find_rule(logic, [_mk(s, d, w)], s)
-    tag = f'{fam(name)}|{shape_name(sh)}'
+    tag = f'{fam(name)}|{shape_name(sh, True)}'
     if rulecls is None:
         return [(f'C04|no-rule|{tag}', f'{name}: no rule applies to a {shape_name(sh)} node')], None
     tab, n0, steps = _run_single(logic, rulecls, nodes=[_mk(s, d, w)])
@@ -520,7 +531,7 @@ def check_inproof(case):
 def shards(tier, seed):
     names = sorted(R.LOGICS)
     out = [dict(kind='shapes', logics=names[i::16]) for i in range(16)]
-    out += [dict(kind='inproof', seed=seed, shard=i, examples=150 if tier == 'quick' else 2000) for i in range(8 if tier == 'quick' else 32)]
+    out += [dict(kind='inproof', seed=seed, shard=i, examples=300 if tier == 'quick' else 2000) for i in range(8 if tier == 'quick' else 32)]
     for name in names:
         if R.frame_of(name) in FRAME_RULES:
             out.append(dict(kind='frame', logic=name, nworlds=3 if (tier == 'thorough' or R.base_of(name) in ('CFOL', 'FDE')) else 2))
